@@ -50,7 +50,8 @@ func (c c16Case) String() string {
 func judgeC16(c c16Case) (string, string) {
 	root := scratch.Dir("cp")
 	defer scratch.Remove(root)
-	src, dst := filepath.Join(root, "src"), filepath.Join(root, "dst")
+	// the roots carry pattern metacharacters in their own names: only what lies below a root is ever matched
+	src, dst := filepath.Join(root, "s[1]rc"), filepath.Join(root, "d[s]t*")
 	os.Mkdir(src, 0755)
 	os.Mkdir(dst, 0755)
 	if err := fsmodel.Materialize(c.Tree, src); err != nil {
@@ -360,7 +361,7 @@ func runC16(r *evid.Run) {
 				cases = append(cases, c16Case{Tree: t, Include: []string{q, tp}, Dst: "empty"}, c16Case{Tree: t, Include: []string{tp, q}, Dst: "empty"}, c16Case{Tree: t, Include: []string{tp}, Exclude: []string{q}, Dst: "empty"})
 			}
 		}
-		odd := []string{"/a", "../a", "!/a/b", "/a/b", "a", "!a/b", "a/../b", "./a/b", "**", "!/b"}
+		odd := []string{"/a", "../a", "!/a/b", "/a/b", "a", "!a/b", "a/../b", "./a/b", "**", "!/b", "", " "}
 		for _, in := range patternLists(2, odd) {
 			for _, ex := range patternLists(1, odd) {
 				cases = append(cases, c16Case{Tree: t, Include: in, Exclude: ex, Dst: "empty"}, c16Case{Tree: t, Include: ex, Exclude: in, Dst: "empty"})
